@@ -737,6 +737,21 @@ func FloatSpelling(f float64, st *Style) string {
 	return s
 }
 
+// identityEscapable: a character that, written after a backslash, denotes
+// itself - not one that begins an escape sequence (b f n r t v x u), not a
+// digit (\0 and legacy octal escapes in ECMAScript), not a line terminator.
+func identityEscapable(c rune) bool {
+	switch {
+	case c < 0x20 || c == 0x7f || c == 0x2028 || c == 0x2029 || c == 0xfffd:
+		return false
+	case c >= '0' && c <= '9':
+		return false
+	case strings.ContainsRune("bfnrtvxu", c):
+		return false
+	}
+	return true
+}
+
 var simpleEsc = map[rune]string{'\b': `\b`, '\f': `\f`, '\n': `\n`, '\r': `\r`, '\t': `\t`, '\v': `\v`, '"': `\"`, '\\': `\\`}
 
 // quoteRune spells one code point inside a quoted string.
@@ -774,6 +789,14 @@ func (w *speller) quoteRune(sb *strings.Builder, c rune, next rune) {
 			}
 			if len(s) <= 6 {
 				sb.WriteString(`\u{` + s + `}`)
+				return
+			}
+		case 3:
+			// ECMAScript conventions: a backslash before a character that
+			// starts no escape sequence stands for that character
+			if identityEscapable(c) {
+				sb.WriteByte('\\')
+				sb.WriteRune(c)
 				return
 			}
 		}
@@ -851,11 +874,30 @@ func isXIDStartSample(c rune) bool {
 		return true
 	case c >= 0x4e00 && c <= 0x9fa5:
 		return true
+	case c >= 0x905 && c <= 0x939, c >= 0xe01 && c <= 0xe30: // Devanagari and Thai letters
+		return true
+	case c >= 0x2160 && c <= 0x2188: // letter numbers (roman numerals)
+		return true
 	}
 	return false
 }
 
-func isXIDContinueSample(c rune) bool { return isXIDStartSample(c) }
+// XID_Continue is wider than XID_Start: combining marks, vowel signs, digits of
+// other scripts, connector punctuation and the middle dot continue an
+// identifier without being letters.
+func isXIDContinueSample(c rune) bool {
+	switch {
+	case isXIDStartSample(c):
+		return true
+	case c >= 0x300 && c <= 0x36f, c >= 0x93e && c <= 0x94c, c == 0xe31, c >= 0xe34 && c <= 0xe3a:
+		return true
+	case c >= 0x660 && c <= 0x669, c >= 0x966 && c <= 0x96f:
+		return true
+	case c == 0xb7 || c == 0x203f || c == 0x2040:
+		return true
+	}
+	return false
+}
 
 func (w *speller) key(s string) {
 	if w.st.lex() && BareIdentOK(s) && w.st.R.IntN(3) != 0 {
@@ -865,6 +907,9 @@ func (w *speller) key(s string) {
 			if w.st.coin(8) && c < 0x10000 && i > 0 {
 				fmt.Fprintf(&sb, `\u%04x`, c)
 				continue
+			}
+			if w.st.coin(10) && identityEscapable(c) {
+				sb.WriteByte('\\')
 			}
 			sb.WriteRune(c)
 		}
